@@ -270,7 +270,10 @@ func (x *exec) useSetLib() {
 	ax("(forall ((V (Array Int Bool)) (S (Array Int Bool)) (k Int) (b Bool)) (! (= (cntv (store V k b) S) (+ (cntv V S) (ite (select S k) (- (ite b 1 0) (ite (select V k) 1 0)) 0))) :pattern ((cntv (store V k b) S))))")
 	ax("(forall ((V (Array Int Bool)) (S (Array Int Bool))) (! (=> (> (cntv V S) 0) (and (select S (wv V S)) (select V (wv V S)))) :pattern ((cntv V S))))")
 	ax("(forall ((V (Array Int Bool)) (S (Array Int Bool)) (k Int)) (! (=> (and (select S k) (select V k)) (>= (cntv V S) 1)) :pattern ((cntv V S) (select S k))))")
-	c.note("T-set: finite-set library (card, cntv: 15 axioms over Array Int Bool)")
+	// monotonicity with a skolem witness: card(A) <= card(B) unless some element of A is not in B
+	c.declareFun("cardwit", []Sort{bs, bs}, SInt)
+	ax("(forall ((A (Array Int Bool)) (B (Array Int Bool))) (! (or (<= (card A) (card B)) (and (select A (cardwit A B)) (not (select B (cardwit A B))))) :pattern ((card A) (card B))))")
+	c.note("T-set: finite-set library (card, cntv: 16 axioms over Array Int Bool)")
 }
 
 func constArray(sort Sort, v Term) Term {
@@ -305,4 +308,32 @@ func (x *exec) wordOf(arr Term, pos Term, n int) Term {
 		x.ctx.note("T-std: a little-endian word is an uninterpreted function " + name + "(bytes, pos) of the bytes at pos..pos+" + fmt.Sprint(n-1))
 	}
 	return app(SInt, name, arr, pos)
+}
+
+// useCountLib declares the counting library used for order statistics (T-set, part 2):
+//   cntge(V, M, S, v) = |{k in S : V[k] and M[k] >= v}|      scge(A, lo, hi, v) = |{j in [lo,hi) : A[j] >= v}|
+func (x *exec) useCountLib() {
+	c := x.ctx
+	x.useSetLib()
+	if c.countLib {
+		return
+	}
+	c.countLib = true
+	bs, is := ArrSort(SInt, SBool), ArrSort(SInt, SInt)
+	c.declareFun("cntge", []Sort{bs, is, bs, SInt}, SInt)
+	c.declareFun("scge", []Sort{is, SInt, SInt, SInt}, SInt)
+	ax := func(s string) { c.Axioms = append(c.Axioms, Term{s, SBool}) }
+	empty := "((as const (Array Int Bool)) false)"
+	q := "(V (Array Int Bool)) (M (Array Int Int)) (S (Array Int Bool)) (v Int)"
+	ax("(forall ((V (Array Int Bool)) (M (Array Int Int)) (v Int)) (! (= (cntge V M " + empty + " v) 0) :pattern ((cntge V M " + empty + " v))))")
+	ax("(forall (" + q + ") (! (and (<= 0 (cntge V M S v)) (<= (cntge V M S v) (cntv V S))) :pattern ((cntge V M S v))))")
+	ax("(forall (" + q + " (k Int)) (! (=> (not (select S k)) (= (cntge V M (store S k true) v) (+ (cntge V M S v) (ite (and (select V k) (>= (select M k) v)) 1 0)))) :pattern ((cntge V M (store S k true) v))))")
+	ax("(forall (" + q + " (k Int)) (! (=> (select S k) (= (cntge V M (store S k true) v) (cntge V M S v))) :pattern ((cntge V M (store S k true) v))))")
+	ax("(forall (" + q + " (k Int)) (! (=> (and (select S k) (select V k) (>= (select M k) v)) (>= (cntge V M S v) 1)) :pattern ((cntge V M S v) (select S k))))")
+	qa := "(A (Array Int Int)) (lo Int) (hi Int) (v Int)"
+	ax("(forall ((A (Array Int Int)) (lo Int) (v Int)) (! (= (scge A lo lo v) 0) :pattern ((scge A lo lo v))))")
+	ax("(forall (" + qa + ") (! (=> (<= lo hi) (and (<= 0 (scge A lo hi v)) (<= (scge A lo hi v) (- hi lo)))) :pattern ((scge A lo hi v))))")
+	ax("(forall (" + qa + ") (! (=> (< lo hi) (= (scge A lo hi v) (+ (scge A lo (- hi 1) v) (ite (>= (select A (- hi 1)) v) 1 0)))) :pattern ((scge A lo hi v))))")
+	ax("(forall (" + qa + " (j Int) (x Int)) (! (=> (or (< j lo) (>= j hi)) (= (scge (store A j x) lo hi v) (scge A lo hi v))) :pattern ((scge (store A j x) lo hi v))))")
+	c.note("T-set: counting library (cntge, scge: 9 axioms)")
 }
